@@ -2,7 +2,7 @@
 import itertools
 from vlib import Rng
 
-RULE = ("family fs: FilesystemHandler over a scratch tree with canaries outside the root (SECRET in the parent chain, sibling root2/, "
+RULE = ("family fsm: histories of 2-6 requests through ONE handler whose document root is replaced on the way (setDocumentRoot), relative and absolute spellings of files below the roots that were or are in force; family fs: FilesystemHandler over a scratch tree with canaries outside the root (SECRET in the parent chain, sibling root2/, "
         "name-extension sibling rootX/); request paths over the segment alphabet {name, '.', '..', '', encoded dots / slashes, "
         "absolute prefixes incl. a percent-encoded leading slash} up to 4 segments exhaustively (6 in thorough, sampled) x 4 document-root spellings (plain, trailing slash, "
         "dot segments, relative to cwd); non-trivial = distinct case")
@@ -59,3 +59,37 @@ def cases(tier, seed, ctx=None):
         root = ROOTS[rng.below(len(ROOTS))] if len(p) > 8 else None
         for r in ([root] if root else ROOTS):
             yield ("fs", [TREE, r, p, [], ver, [7]], "abs" if b"@BASE@" in p or p.startswith(b"/") else "rel")
+
+    # histories through ONE handler whose document root is replaced on the way: what an earlier root allowed is gone, what the new
+    # one allows is reachable, by relative and by absolute spellings
+    RDIRS = [b"p/q/root", b"p/q/root2", b"p/q/rootX", b"p/q", b"p/q/root/sub", b"p"]
+    FILES = [t[0] for t in TREE if t[1] == 0]
+    for _ in range(250 if tier == "quick" else 3000):
+        dirs = [rng.choice(RDIRS) for _ in range(rng.range(2, 4))]
+        spell = lambda d: rng.choice([b"@BASE@/" + d, b"@BASE@/" + d + b"/", b"@BASE@/p/../" + d, b"@CWD@/" + d])
+        cur = dirs[0]
+        reqs = []
+        first = spell(cur)
+        seen = [cur]
+        for step in range(rng.range(2, 7)):
+            newroot = None
+            if step > 0 and rng.chance(1, 2):
+                cur = rng.choice(dirs)
+                seen.append(cur)
+                newroot = spell(cur)
+            k = rng.below(5)
+            f = rng.choice(FILES)
+            if k == 0:      # relative to the root in force (when the file is below it), else some relative name
+                path = f[len(cur) + 1:] if f.startswith(cur + b"/") else rng.choice([b"a.txt", b"x", b"y", b"sub/b.txt"])
+            elif k == 1:    # absolute spelling of a file below a root that was in force earlier (or is now)
+                old = rng.choice(seen)
+                below = [x for x in FILES if x.startswith(old + b"/")] or FILES
+                path = rng.choice([b"%2F@BASE@/", b"%2f@BASE@%2F", b"/@BASE@/", b"@BASE@/"]) + rng.choice(below)
+            elif k == 2:    # absolute spelling of a directory
+                path = rng.choice([b"%2F@BASE@/", b"@BASE@/"]) + rng.choice(seen) + rng.choice([b"", b"/"])
+            elif k == 3:
+                path = b"/".join(rng.choice(SEGS) for _ in range(rng.range(1, 4)))
+            else:
+                path = rng.choice([b"%2F@BASE@/", b"@BASE@/"]) + f
+            reqs.append([path, []] + ([newroot] if newroot else []))
+        yield ("fsm", [TREE, first, reqs, ver, [7]], "root-history")
